@@ -886,12 +886,20 @@ impl World {
                     "C05.no_effect"
                 };
                 ctx.eval(clause);
-                // the value is compared by C01.value; here: the handle must still describe the same storage
-                let same = if clause == "C07.no_effect" { a == b } else { a.len == b.len && a.cap >= a.len };
+                // the value is compared by C01.value; here: the handle must still describe the very same storage
+                // (same handle bytes, pointer, capacity, reference count): a refused call has no effect at all
+                let same = a == b;
                 if !same {
                     f.push(Failure::new(
                         clause,
                         format!("{name} failed ({}) but the target changed: {:?} -> {:?}", real.class(), a, b),
+                    ));
+                }
+                // a call that fails without writing anything has no reason to stop borrowing a static text
+                if a.kind == Kind::Static && (b.kind != Kind::Static || b.ptr != a.ptr) {
+                    f.push(Failure::new(
+                        "C10.keep_borrowing",
+                        format!("{name} failed ({}) without writing, yet the static handle moved to {} storage", real.class(), b.kind.name()),
                     ));
                 }
             }
